@@ -1358,9 +1358,16 @@ func call(n *node) {
 			rcvr = genValueRecv(c0)
 			ptrRecv = m.typ.recv.cat == ptrT
 		}
+		isLit := c0.kind == funcLit
 		n.exec = func(f *frame) bltn {
 			val := make([]reflect.Value, len(values)+1)
-			val[0] = value(f)
+			if isLit {
+				// A deferred function literal captures the variables as they are at
+				// the defer statement (per-iteration loop variables are replaced later).
+				val[0] = value(f.clone())
+			} else {
+				val[0] = value(f)
+			}
 			if rcvr != nil {
 				if r := boundReceiver(rcvr(f), ptrRecv); r != nil {
 					nod := *c0
